@@ -99,8 +99,8 @@ def verifies(pk_bytes, message, sig_bytes):
 
 
 def make_tx(keys, utxo, refs, outputs, signer_override=None, resign=True):
-    """spend `refs` (OutputReference list, owned by keys) into `outputs` [(value, key index)]"""
-    outs = [Output(v, keys.pk(k)) for (v, k) in outputs]
+    """spend `refs` (OutputReference list, owned by keys) into `outputs` [(value, key index | raw 64-byte key)]"""
+    outs = [Output(v, keys.pk(k) if isinstance(k, int) else SECP256k1PublicKey(k)) for (v, k) in outputs]
     unsigned = Transaction([Input(r, SignableEquivalent()) for r in refs], outs)
     message = unsigned.signable_equivalent().serialize()
     inputs = []
